@@ -18,6 +18,8 @@ Gaussian rationals the driver computes with and to `ℝ`/`ℂ`.
 open Matrix
 open scoped Kronecker
 
+set_option linter.unusedSectionVars false
+
 variable {R : Type}
 
 /-! ## the predicates -/
@@ -91,6 +93,32 @@ theorem PLUFact.eqOn {n : Nat} {P L U A : MatF R} (h : PLUFact n P L U A) :
   rw [← MatF.toMatrix_eq_iff, MatF.toMatrix_mmul, MatF.toMatrix_mmul]
   exact h.2.2.2
 
+theorem cholFact_of_eqOn {n : Nat} {L A : MatF R} (hL : LowerTri n L)
+    (h : EqOn n n (mmul n L (conjM (transposeM L))) A) : CholFact n L A := by
+  refine ⟨hL, ?_⟩
+  rw [← MatF.toMatrix_eq_iff, MatF.toMatrix_mmul, MatF.toMatrix_adjoint] at h
+  exact h
+
+theorem pluFact_of_eqOn {n : Nat} {P L U A : MatF R} (hP : IsPermMat n P) (hL : LowerTri n L)
+    (hU : UpperTri n U) (h : EqOn n n (mmul n P (mmul n L U)) A) : PLUFact n P L U A := by
+  refine ⟨hP, hL, hU, ?_⟩
+  rw [← MatF.toMatrix_eq_iff, MatF.toMatrix_mmul, MatF.toMatrix_mmul] at h
+  exact h
+
+/-- the permutation matrix of a duplicate-free list of in-range positions (`Permutation(p)`:
+`(P v)[i] = v[p[i]]`, i.e. row `i` has its one in column `p[i]`) -/
+theorem isPermMat_permDen (p : List Nat) (hlt : ∀ t ∈ p, t < p.length) (hnd : p.Nodup) :
+    IsPermMat p.length (permDen p : MatF R) := by
+  let σ : Fin p.length → Fin p.length := MatF.idxFin p.length p hlt
+  have hinj : Function.Injective σ := by
+    intro i j hij
+    have h := congrArg Fin.val hij
+    simp only [σ, MatF.idxFin] at h
+    rw [← List.getElem_eq_getD (h := i.isLt) 0, ← List.getElem_eq_getD (h := j.isLt) 0] at h
+    exact Fin.ext ((List.Nodup.getElem_inj_iff hnd).mp h)
+  refine ⟨Equiv.ofBijective σ (Finite.injective_iff_bijective.mp hinj), fun i j => ?_⟩
+  simp only [permDen, Equiv.ofBijective_apply, σ, MatF.idxFin, Fin.ext_iff]
+
 /-! ## everything holds of an empty window -/
 
 theorem lowerTri_zero (D : MatF R) : LowerTri 0 D := fun _ _ hi => absurd hi (Nat.not_lt_zero _)
@@ -142,6 +170,12 @@ theorem pluFact_diagM (n : Nat) (s d : Nat → R) (h : ∀ i, i < n → s i * s 
   congr 1
   funext i
   exact h i.val i.isLt
+
+/-- an upper-triangular matrix is its own upper factor: `I · (I · D) = D` -/
+theorem pluFact_self (n : Nat) (D : MatF R) (hD : UpperTri n D) : PLUFact n eyeM eyeM D D := by
+  refine ⟨isPermMat_eyeM n, ?_, hD, ?_⟩
+  · rw [eyeM_eq_diagM]; exact lowerTri_diagM n _
+  · rw [MatF.toMatrix_eyeM, Matrix.one_mul, Matrix.one_mul]
 
 theorem cholFact_eyeM (n : Nat) : CholFact n (eyeM : MatF R) eyeM := by
   rw [eyeM_eq_diagM]
